@@ -34,10 +34,6 @@ def run_property(prop: str, tier: str, quiet: bool = False, write: bool = True, 
             raise AnalysisError(f"rule {res.rule}: {res.instances} anchor instances found, hand-confirmed floor is {res.floor}")
         results.append(res)
     # positive controls
-    ctrl = {}
-    if controls:
-        from .controls import run_controls
-        ctrl = run_controls(spec.get("controls", []))
     known = load_known()
     violations = []
     known_hits = []
@@ -52,6 +48,12 @@ def run_property(prop: str, tier: str, quiet: bool = False, write: bool = True, 
                 known_hits.append((f, k))
             else:
                 violations.append(f)
+    ctrl = {}
+    if controls:
+        from .controls import run_controls
+        ctrl, ctrl_failures = run_controls(spec.get("controls", []))
+        if ctrl_failures and not violations:
+            raise AnalysisError("; ".join(ctrl_failures))
     wall = time.time() - t0
     info = dict(counts)
     info["files"] = tree.digests()
@@ -121,7 +123,10 @@ def main(argv=None) -> int:
             tree = Tree()
             n = 0
             for p in sorted(PROPS):
-                n += len(run_controls(PROPS[p].get("controls", [])))
+                res, fails = run_controls(PROPS[p].get("controls", []))
+                if fails:
+                    raise AnalysisError("; ".join(fails))
+                n += len(res)
             print(f"[vt] setup ok: {tree.counts()} ; {n} positive controls reported their broken instance")
             return 0
         if a.all:
